@@ -23,6 +23,9 @@ func (certificateRequest *CertificateRequest) Marshal() ([]byte, error) {
 }
 
 func (certificateRequest *CertificateRequest) Unmarshal(b []byte) error {
+	if len(b) == 0 {
+		return errors.Errorf("CertificateRequest: Empty payload body")
+	}
 	if len(b) > 0 {
 		// bounds checking
 		if len(b) <= 1 {
